@@ -199,6 +199,8 @@ pub struct Drv {
     /// every rpc sent (method, params, answer class), for replays
     pub log: Vec<Value>,
     pub record_cases: bool,
+    /// (next, hashes, pool) as of the last accepted commit (what clearCaches goes back to)
+    pub committed: Option<(u64, BTreeMap<u64, Hx>, Vec<Parked>)>,
 }
 
 pub type Rpc = Result<Value, RpcFail>;
@@ -211,7 +213,7 @@ impl Drv {
         apply_cfg(&cfg);
         let next = cfg.genesis_height;
         Drv { inst, cfg, next, waiting: 0, open_ts: 0, open_hash: Hx::zero32(), hashes: BTreeMap::new(), pool: vec![], insc: 0,
-              cases: Cases::default(), log: vec![], record_cases: true }
+              cases: Cases::default(), log: vec![], record_cases: true, committed: None }
     }
 
     pub fn rpc(&mut self, method: &str, params: Value) -> (Rpc, Vec<Sample>) {
@@ -309,7 +311,20 @@ impl Drv {
         }
         r
     }
-    pub fn commit(&mut self) -> Rpc { self.rpc("brc20_commitToDatabase", json!([])).0 }
+    pub fn commit(&mut self) -> Rpc {
+        let r = self.rpc("brc20_commitToDatabase", json!([])).0;
+        if r.is_ok() { self.committed = Some((self.next, self.hashes.clone(), self.pool.clone())); }
+        r
+    }
+    /// brc20_clearCaches: everything since the last commit is dropped (only used after a commit)
+    pub fn clear(&mut self) -> Rpc {
+        let r = self.rpc("brc20_clearCaches", json!([])).0;
+        if r.is_ok() {
+            if let Some((n, h, p)) = self.committed.clone() { self.next = n; self.hashes = h; self.pool = p; }
+            self.waiting = 0;
+        }
+        r
+    }
     pub fn reorg(&mut self, n: u64) -> Rpc {
         let (r, _) = self.rpc("brc20_reorg", json!([n]));
         if r.is_ok() && n + 1 < self.next {
